@@ -508,6 +508,7 @@ def no_hidden_state(chk, repo, pid):
     from ..effects import Effects
     clause = f'{pid}-m'
     mods = PROPERTY_MODULES[pid]
+    public_signature_rule(chk, repo, pid, mods)
     chk.clause(clause, 'results depend only on the arguments: no module-level state is written by the functions of '
                + ', '.join(mods), 1)
     eff = Effects(repo)
@@ -667,3 +668,87 @@ class Remap:
 
     def __getattr__(self, name):
         return getattr(self._chk, name)
+
+
+def flag_truth_rule(chk, repo, clause, funcs, flag):
+    """A boolean option is tested for its truth, not for being the object True: `flag is True` / `flag == True` treat
+    np.True_ (what a numpy comparison returns), 1 and other true values as false."""
+    bad, n = [], 0
+    for key in funcs:
+        if not repo.has_func(key):
+            continue
+        f = repo.func(key)
+        if flag not in f.param_names():
+            continue
+        for node in ast.walk(f.node):
+            if isinstance(node, ast.Compare) and len(node.ops) == 1 and isinstance(node.left, ast.Name) and node.left.id == flag:
+                n += 1
+                r = node.comparators[0]
+                if isinstance(node.ops[0], (ast.Is, ast.IsNot, ast.Eq, ast.NotEq)) and isinstance(r, ast.Constant) and isinstance(r.value, bool):
+                    if isinstance(node.ops[0], (ast.Is, ast.IsNot)):
+                        bad.append(f'{key}: `{f.module.segment(node)}` at {f.loc(node)}')
+            elif isinstance(node, (ast.If, ast.IfExp)) and isinstance(node.test, ast.Name) and node.test.id == flag:
+                n += 1
+            elif isinstance(node, ast.UnaryOp) and isinstance(node.op, ast.Not) and isinstance(node.operand, ast.Name) and node.operand.id == flag:
+                n += 1
+    chk.ob(clause, 'T-truth', funcs[0] if funcs else flag, f'`{flag}` is tested for its truth value, never for identity with True/False',
+           (not bad) if (n or bad) else None,
+           ('; '.join(bad[:2]) + f': a true value that is not the object True (np.True_, 1) takes the other branch') if bad
+           else f'{n} test(s) of `{flag}`', '')
+
+
+def _literal(src):
+    try:
+        return ('lit', ast.literal_eval(src))
+    except Exception:
+        return ('src', src)
+
+
+def public_signature_rule(chk, repo, pid, mods):
+    """The calling convention of the public functions is part of what "for all inputs" quantifies over: a parameter
+    inserted in front of existing ones, two parameters exchanged, or a default changed makes existing calls mean
+    something else (`zernike_remove(opd, mask, modes, rho, theta)` binding rho to a new flag).  Compared with the
+    conventions pinned in specs/known_functions.json: every pinned positional parameter keeps its position and name,
+    pinned defaults keep their value, keyword-only / trailing additions are free."""
+    import json
+    import os
+    from ..report import VERIF
+    clause = f'{pid}-s'
+    pinned = json.load(open(os.path.join(VERIF, 'specs', 'known_functions.json'))).get('signatures', {})
+    chk.clause(clause, 'public calling conventions are the pinned ones (positional order, names, defaults) in ' + ', '.join(mods), 1)
+    bad, n = [], 0
+    for key, old in sorted(pinned.items()):
+        if key.split('.')[0] not in mods or not repo.has_func(key):
+            continue
+        f = repo.func(key)
+        n += 1
+        a = f.node.args
+        pos = a.posonlyargs + a.args
+        defaults = [None] * (len(pos) - len(a.defaults)) + list(a.defaults)
+        new_pos = [(p_.arg, ast.unparse(d) if d is not None else None) for p_, d in zip(pos, defaults)]
+        new_kw = {p_.arg: (ast.unparse(d) if d is not None else None) for p_, d in zip(a.kwonlyargs, a.kw_defaults)}
+        old_pos = [(nm, d) for nm, kind, d in old if kind == 'pos']
+        has_varkw = a.kwarg is not None
+        for i, (nm, d) in enumerate(old_pos):
+            if i < len(new_pos) and new_pos[i][0] == nm:
+                nd = new_pos[i][1]
+            elif nm in new_kw or nm in [x for x, _ in new_pos]:
+                where = 'keyword-only' if nm in new_kw else f'position {[x for x, _ in new_pos].index(nm)}'
+                bad.append(f'{key}: parameter `{nm}` moved from position {i} to {where}'
+                           + (f' (position {i} is now `{new_pos[i][0]}`)' if i < len(new_pos) else ''))
+                continue
+            elif has_varkw or any(k == 'varkw' for _, k, _ in old):
+                continue            # swallowed by / taken out of **kwargs: still accepted by keyword
+            else:
+                bad.append(f'{key}: parameter `{nm}` is gone')
+                continue
+            if d is not None and nd is None:
+                bad.append(f'{key}: `{nm}` lost its default {d}')
+            elif d is not None and nd is not None and _literal(d) != _literal(nd) and _literal(d)[0] == 'lit' and _literal(nd)[0] == 'lit':
+                bad.append(f'{key}: default of `{nm}` changed from {d} to {nd}')
+        for nm, d in new_pos[len(old_pos):]:
+            if d is None and nm not in [x for x, _ in old_pos]:
+                bad.append(f'{key}: new parameter `{nm}` has no default')
+    chk.ob(clause, 'B-signature', 'lentil.' + '/'.join(mods), 'pinned public calling conventions', (not bad) if n else None,
+           '; '.join(bad[:3]) + (': calls written against the documented convention bind other parameters / get other values'
+                                 if bad else f'{n} public function(s) keep their calling convention'), '')
